@@ -69,6 +69,9 @@ class InterfaceSliver(BaseSliver):
 
     def set_peer_labels(self, lab: Labels) -> None:
         assert(lab is None or isinstance(lab, Labels))
+        if lab is not None:
+            # fields may have been assigned one by one since the object was built, check the values again
+            Labels(**(lab.to_dict() or {}))
         self.peer_labels = lab
 
     def get_peer_labels(self) -> Labels:
